@@ -31,6 +31,9 @@ type genCfg struct {
 	indirectJumps      bool     // allow JMP r64 / JMP m64 (branches with a non-label target)
 	jumpBeforeLabelPct int      // % of labels preceded by `JMP label` (possibly twice, possibly with a comment in between)
 	pressureTail       bool     // before the final RET read every virtual register (all simultaneously live)
+	// The two fields below default to 0 = the behaviour (and the random stream) of every generator written before them.
+	restrictedPct int // % of author-chosen PHYSICAL picks that are the RESTRICTED register of the kind (SP in the asked view, K0)
+	regMovePct    int // % of instruction slots filled with a plain register-to-register move (see buildRegMove)
 }
 
 type vreg struct {
@@ -172,6 +175,10 @@ func (g *fgen) pickReg(kind reg.Kind, s reg.Spec, read bool) reg.Register {
 			if g.cfg.allowSP && r.chance(1, 20) {
 				base = reg.RSP
 			}
+			if g.cfg.restrictedPct > 0 && r.intn(100) < g.cfg.restrictedPct {
+				base = reg.RSP
+				g.stats["restricted_pick"]++
+			}
 		}
 		return asSpec(base, s)
 	case reg.KindVector:
@@ -185,6 +192,10 @@ func (g *fgen) pickReg(kind reg.Kind, s reg.Spec, read bool) reg.Register {
 		i := 1 + r.intn(7)
 		if r.chance(1, 30) {
 			i = 0
+		}
+		if g.cfg.restrictedPct > 0 && r.intn(100) < g.cfg.restrictedPct {
+			i = 0
+			g.stats["restricted_pick"]++
 		}
 		return ks[i]
 	}
@@ -545,6 +556,9 @@ func (g *fgen) generate() *ir.Function {
 				// code after RET is reachable only through labels: nothing to do (snapshots handle joins)
 			}
 		} else {
+			if !isBranch && g.cfg.regMovePct > 0 && r.intn(100) < g.cfg.regMovePct {
+				inst = g.buildRegMove()
+			}
 			for tries := 0; tries < 50 && inst == nil; tries++ {
 				f := g.pickForm(isBranch)
 				if f == nil {
@@ -584,6 +598,139 @@ func (g *fgen) generate() *ir.Function {
 		}
 	}
 	return g.fn
+}
+
+// restrictedPhys is the register of a kind that must never be handed out by allocation, in the asked view, by the
+// HARDWARE numbering (GP index 4 = the stack pointer, opmask index 0 = K0) — not by asking avo which rows it flags.
+func restrictedPhys(kind reg.Kind, s reg.Spec) reg.Register {
+	switch kind {
+	case reg.KindGP:
+		if s == reg.S8H {
+			return nil
+		}
+		return asSpec(reg.RSP, s)
+	case reg.KindOpmask:
+		return reg.K0
+	}
+	return nil
+}
+
+// isRestrictedPhys: r is a view of the stack pointer or K0 (hardware numbering).
+func isRestrictedPhys(r reg.Register) bool {
+	p, ok := r.(reg.Physical)
+	if !ok || r.ID().IsVirtual() {
+		return false
+	}
+	return (p.Kind() == reg.KindGP && p.PhysicalIndex() == 4) || (p.Kind() == reg.KindOpmask && p.PhysicalIndex() == 0)
+}
+
+// isPlainRegMove: a two-operand register-to-register copy whose both sides are registers of ONE kind and ONE width
+// (MOVB/MOVW/MOVL/MOVQ, KMOVx, MOVOU/MOVAPS/VMOVDQU…): the instructions a coalescing allocator looks at.
+func isPlainRegMove(i *ir.Instruction) (src, dst reg.Register, ok bool) {
+	if len(i.Operands) != 2 || !(strings.HasPrefix(i.Opcode, "MOV") || strings.HasPrefix(i.Opcode, "KMOV") || strings.HasPrefix(i.Opcode, "VMOV")) {
+		return nil, nil, false
+	}
+	a, ok1 := i.Operands[0].(reg.Register)
+	b, ok2 := i.Operands[1].(reg.Register)
+	if !ok1 || !ok2 || a == nil || b == nil || a.Kind() != b.Kind() || a.Mask() != b.Mask() {
+		return nil, nil, false
+	}
+	return a, b, true
+}
+
+// pickVirt: a virtual register of the kind in the given view (strict mode: for a read, one whose lanes are written).
+func (g *fgen) pickVirt(kind reg.Kind, s reg.Spec, read bool) reg.Register {
+	var cands []*vreg
+	for _, v := range g.virt {
+		if v.kind != kind || (read && g.cfg.strict && v.defined&s.Mask() != s.Mask()) {
+			continue
+		}
+		cands = append(cands, v)
+	}
+	if len(cands) == 0 {
+		return nil
+	}
+	return asSpec(pick(g.r, cands).r, s)
+}
+
+// buildRegMove builds a plain register-to-register move of one width between a VIRTUAL register and (a) the
+// restricted register of the kind (SP / ESP / SP16 / SPB, K0), (b) another author-chosen physical register (the base
+// pointer and high-byte registers included) or (c) another virtual register, in either direction.  These are the
+// instructions a move-coalescing / preference heuristic of an allocator keys on; the form-table driven generator
+// reaches them only by accident (MOVQ alone has a dozen forms and 2 in 3 register picks are virtual).
+func (g *fgen) buildRegMove() *ir.Instruction {
+	r := g.r
+	type mv struct {
+		kind reg.Kind
+		s    reg.Spec
+		op   string
+	}
+	var opts []mv
+	for _, v := range g.virt {
+		switch v.kind {
+		case reg.KindGP:
+			opts = append(opts, mv{reg.KindGP, reg.S64, "MOVQ"}, mv{reg.KindGP, reg.S32, "MOVL"}, mv{reg.KindGP, reg.S16, "MOVW"},
+				mv{reg.KindGP, reg.S8L, "MOVB"}, mv{reg.KindGP, reg.S64, "MOVQ"}, mv{reg.KindGP, reg.S8H, "MOVB"})
+		case reg.KindOpmask:
+			opts = append(opts, mv{reg.KindOpmask, reg.S64, pick(r, []string{"KMOVQ", "KMOVW", "KMOVB", "KMOVD"})})
+		case reg.KindVector:
+			opts = append(opts, pick(r, []mv{{reg.KindVector, reg.S128, "MOVOU"}, {reg.KindVector, reg.S128, "MOVAPS"}, {reg.KindVector, reg.S128, "VMOVDQU"},
+				{reg.KindVector, reg.S256, "VMOVDQU"}, {reg.KindVector, reg.S512, "VMOVDQU64"}}))
+		}
+	}
+	if len(opts) == 0 {
+		return nil
+	}
+	m := pick(r, opts)
+	virtIsSrc := r.chance(1, 2)
+	v := g.pickVirt(m.kind, m.s, virtIsSrc)
+	if v == nil && virtIsSrc {
+		virtIsSrc = false
+		v = g.pickVirt(m.kind, m.s, false)
+	}
+	if v == nil {
+		return nil
+	}
+	var other reg.Register
+	class := "phys"
+	switch c := r.intn(10); {
+	case c < 4:
+		if other = restrictedPhys(m.kind, m.s); other != nil {
+			class = "restricted"
+		}
+	case c < 6:
+		if other = g.pickVirt(m.kind, m.s, !virtIsSrc); other != nil {
+			class = "virt"
+		}
+	}
+	if other == nil {
+		switch m.kind {
+		case reg.KindGP:
+			if m.s == reg.S8H {
+				other = asSpec(pick(r, []reg.Register{reg.RAX, reg.RCX, reg.RDX, reg.RBX}), reg.S8H)
+			} else {
+				other = asSpec(pick(r, physGP64), m.s)
+			}
+		case reg.KindVector:
+			other = asSpec(physVec(r.intn(32)), m.s)
+		case reg.KindOpmask:
+			other = reg.Opmask.Registers()[1+r.intn(7)]
+		}
+	}
+	if other == nil {
+		return nil
+	}
+	ops := []operand.Op{other, v}
+	if virtIsSrc {
+		ops = []operand.Op{v, other}
+	}
+	inst, err := x86.VerifBuild(m.op, nil, ops)
+	if err != nil || inst == nil {
+		g.stats["regmove_rejected"]++
+		return nil
+	}
+	g.stats["regmove_"+class]++
+	return inst
 }
 
 // emitPressureHead defines every virtual register up front.
